@@ -156,3 +156,39 @@ S("C20", "eq swallows nothing (no ValueError handler)", "R3", (OB, "        exce
 N("C20", "tuple built through a local list", (OB, "            obis = match.group(\"AS\", \"BS\", \"CS\", \"DS\", \"ES\", \"FS\")\n            return (\n                int(obis[0]),", "            obis = match.group(\"AS\", \"BS\", \"CS\", \"DS\", \"ES\", \"FS\")\n            return (\n                int(match.group(\"AS\")),"))
 N("C20", "reduced string built with str()+concatenation", (OB, '            obis_code += f"{self._groups[0]}-"', '            obis_code += str(self._groups[0]) + "-"'))
 N("C20", "eq operand order", (OB, "            return self._groups == other._groups", "            return other._groups == self._groups"))
+
+# ------------------------------------------------------------------------------------------------ C18
+MC = "meter_connection"
+S("C18", "* 2 -> * 3", "R1", (MC, "self._delay = self._delay * 2", "self._delay = self._delay * 3"))
+S("C18", "== 0 -> == 1 in failure", "R1", (MC, "        if self._delay == 0:\n            self._delay = 1", "        if self._delay == 1:\n            self._delay = 1"))
+S("C18", "cap comparison inverted", "R1", (MC, "return self._delay if self._delay < self.max_delay else self.max_delay", "return self._delay if self._delay > self.max_delay else self.max_delay"))
+S("C18", "doubling stops before the cap", "R1", (MC, "        self._delay = self._delay * 2\n        if self._delay == 0:\n            self._delay = 1",
+                                                "        if self._delay == 0:\n            self._delay = 1\n        elif self._delay * 2 <= self.max_delay:\n            self._delay = self._delay * 2"))
+S("C18", "reset leaves 1", "R1", (MC, '        """Call this after success to reset."""\n        self._delay = 0', '        """Call this after success to reset."""\n        self._delay = 1'))
+S("C18", "failure()/reset() swapped", "R2", (MC, "                self.back_off_connect_error.reset()\n            except CancelledError", "                self.back_off_connect_error.failure()\n            except CancelledError"))
+S("C18", "reset skipped while the breaker is armed", "R2", (MC, "                self.back_off_connect_error.reset()\n", "                if not self._connection_lost_sleep_before_reconnect:\n                    self.back_off_connect_error.reset()\n"))
+S("C18", "max( -> min(", "R3", (MC, "sleep_time = max(current_connect_error_delay, reconnect_sleep)", "sleep_time = min(current_connect_error_delay, reconnect_sleep)"))
+S("C18", "sleep skipped when the breaker flag is set", "R3", (MC, "        if sleep_time > 0:\n            await sleep(sleep_time)", "        if sleep_time > 0 and not self._connection_lost_sleep_before_reconnect:\n            await sleep(sleep_time)"))
+S("C18", "sleep after connecting", "R3", (MC, "        if sleep_time > 0:\n            await sleep(sleep_time)\n\n        if not self._is_closing.is_set():", "        if not self._is_closing.is_set():"), )
+S("C18", "breaker compares with >", "R4", (MC, "delta.total_seconds() < self.connection_lost_back_off_threshold", "delta.total_seconds() > self.connection_lost_back_off_threshold"))
+S("C18", "last-loss time only set once", "R4", (MC, "        self._connection_lost_last_time = now\n", "        if not self._connection_lost_last_time:\n            self._connection_lost_last_time = now\n"))
+N("C18", "store-capping variant of failure()", (MC, "        self._delay = self._delay * 2\n        if self._delay == 0:\n            self._delay = 1", "        self._delay = min(max(self._delay * 2, 1), max(self.max_delay, 1))"))
+N("C18", "cap via min()", (MC, "return self._delay if self._delay < self.max_delay else self.max_delay", "return min(self._delay, self.max_delay)"))
+N("C18", "doubling by shift", (MC, "self._delay = self._delay * 2", "self._delay = self._delay << 1"))
+
+# ------------------------------------------------------------------------------------------------ C17
+S("C17", "pinned defect: losers of the first wait never cancelled", "R1", (MC, "            await self._cancel_tasks(connect_task, closing_task)\n", ""))
+S("C17", "pinned defect: second closing waiter never cancelled", "R1", (MC, "                await self._cancel_tasks(closing_task2)\n", ""))
+S("C17", "only the connect task is cancelled", "R1", (MC, "await self._cancel_tasks(connect_task, closing_task)", "await self._cancel_tasks(connect_task)"))
+S("C17", "helper no longer cancels", "R1", (MC, "            if not task.done():\n                task.cancel()\n", "            pass\n"))
+S("C17", "closing test removed before the factory call", "R2", (MC, "        if not self._is_closing.is_set():\n            try:\n                _LOGGER.debug(\"Try to connect\")", "        if True:\n            try:\n                _LOGGER.debug(\"Try to connect\")"))
+S("C17", "sleep moved between the closing test and the factory call", "R2", (MC, "        if sleep_time > 0:\n            await sleep(sleep_time)\n\n        if not self._is_closing.is_set():\n            try:\n                _LOGGER.debug(\"Try to connect\")",
+                                                                             "        if not self._is_closing.is_set():\n            try:\n                if sleep_time > 0:\n                    await sleep(sleep_time)\n                _LOGGER.debug(\"Try to connect\")"))
+S("C17", "closing event cleared at loop start", "R3", (MC, '        while not self._is_closing.is_set():\n            connect_task', '        self._is_closing.clear()\n        while not self._is_closing.is_set():\n            connect_task'))
+S("C17", "pinned defect: late connection not closed", "R4", (MC, "                elif self._connection:\n                    # connection was established after close() was called\n                    transport, _ = self._connection\n                    transport.close()\n", ""))
+S("C17", "close() touches the connection before setting the event", "R6", (MC, "        self._is_closing.set()\n        if self._connection:\n            _LOGGER.info(\"Close connection and abort connect loop\")\n            transport, _ = self._connection\n            transport.close()\n            self._connection = None",
+                                                                           "        if self._connection:\n            _LOGGER.info(\"Close connection and abort connect loop\")\n            transport, _ = self._connection\n            transport.close()\n            self._connection = None\n        self._is_closing.set()"))
+S("C17", "close() does not close the transport", "R6", (MC, "            transport, _ = self._connection\n            transport.close()\n            self._connection = None\n\n    async def connect_loop", "            self._connection = None\n\n    async def connect_loop"))
+S("C17", "no wait on the live connection", "R5", (MC, "                await wait(\n                    (done_task, closing_task2),\n                    return_when=FIRST_COMPLETED,\n                )\n", ""))
+N("C17", "inline cancellation instead of the helper", (MC, "            await self._cancel_tasks(connect_task, closing_task)\n", "            for task in (connect_task, closing_task):\n                if not task.done():\n                    task.cancel()\n            await wait((connect_task, closing_task))\n"))
+N("C17", "closing test written positively", (MC, "        if not self._is_closing.is_set():\n            try:\n                _LOGGER.debug(\"Try to connect\")", "        if self._is_closing.is_set():\n            return\n        if not self._is_closing.is_set():\n            try:\n                _LOGGER.debug(\"Try to connect\")"))
